@@ -365,7 +365,17 @@ func getHandler(env *lisp.LEnv, in *lisp.LVal, name string, constraints []*lisp.
 					"Bad input type: an ordinary function is not usable as a constraint (%v). Constraints must be built by the s package (s:int, s:has-key, s:gt, ...) or by libschema.NewValidator.",
 					in)
 			}
-			return in
+			if len(constraints) == 0 {
+				return in
+			}
+			// A validator used as the type of another one: the value must
+			// pass the nested validator AND every constraint written after
+			// it.  Returning the nested validator alone would drop those
+			// constraints, and validation would silently pass.
+			nested := make([]*lisp.LVal, 0, len(constraints)+1)
+			nested = append(nested, in)
+			nested = append(nested, constraints...)
+			return builtinCheckAny(env, nested)
 		}
 		res = lisp.ErrorConditionf(BadArgs, "Bad input type: %s is not usable as a constraint (%v)", in.Type.String(), in)
 	}
